@@ -526,6 +526,10 @@ pub fn run_clone(dir: &Path, b: &Built, sc: &Scenario, tag: &str, faults: &Fault
     }
     run.fault = faults.fault.clone();
     run.trunc_fault = faults.trunc_fault.clone();
+    // One scenario in seven runs pinned to a single CPU (default pipeline widths become 1).
+    if sc.src_seed % 7 == 3 {
+        run.one_cpu = Some((sc.src_seed >> 8) as usize);
+    }
     run.rlimit_fsize = faults.rlimit_fsize;
     run.hook_delay = faults.hook_delay.clone();
     if faults.release {
